@@ -576,6 +576,20 @@ def model_decl(index, models, ci, summ=None):
                 protocol |= {n for n in b.methods if n in PROTOCOL_METHODS}
     except Exception:  # noqa: BLE001
         pass
+    # ... or set on the class by a decorator of the package (`@hashed_by("uuid")` whose body does `cls.__hash__ = ...`)
+    for d in ci.node.decorator_list:
+        f_ = d.func if isinstance(d, ast.Call) else d
+        try:
+            sy_ = index.resolve_expr(ci.module, f_) if isinstance(f_, (ast.Name, ast.Attribute)) else None
+        except Exception:  # noqa: BLE001
+            sy_ = None
+        if sy_ is not None and sy_.kind == "func" and sy_.node is not None:
+            for x in ast.walk(sy_.node):
+                if isinstance(x, ast.Assign):
+                    protocol |= {t_.attr for t_ in x.targets if isinstance(t_, ast.Attribute) and t_.attr in PROTOCOL_METHODS}
+                elif isinstance(x, ast.Call) and isinstance(x.func, ast.Name) and x.func.id == "setattr" and len(x.args) == 3 \
+                        and isinstance(x.args[1], ast.Constant) and x.args[1].value in PROTOCOL_METHODS:
+                    protocol.add(x.args[1].value)
     protocol = sorted(protocol)
     return {"config": cfg, "fields": fields, "protocol": protocol, "hooks": model_hooks(index, models, ci, summ)}
 
@@ -918,6 +932,21 @@ def check_declarations(ctx: Ctx, files: List[str]):
             n_c += 1
             cur = class_decl(c)
             cur["bases"] = sorted(set(cur["bases"]) - plain_new_bases(c, ref.get("classes", {})))
+            # a new in-package base that itself is nothing but the reference bases plus methods (`class IdentifiedModel(BaseModel)` with
+            # a shared __hash__, no fields, no configuration, no validators): the class is still a subclass of the reference bases --
+            # the methods it inherits that way are compared as its own (protocol methods above)
+            known_ = {q.split(":")[-1] for q in ref.get("classes", {})}
+            for b_ in list(c.bases):
+                if b_.name in cur["bases"] and b_.name not in known_ and b_.module.name.startswith("soundevent"):
+                    try:
+                        thin = not any(isinstance(st, ast.AnnAssign) and "ClassVar" not in ast.unparse(st.annotation) for x_ in b_.mro() if x_.module.name.startswith("soundevent") for st in x_.node.body) \
+                            and not any(isinstance(st, ast.Assign) and any(isinstance(t_, ast.Name) and t_.id == "model_config" for t_ in st.targets) for st in b_.node.body) \
+                            and not any(d_ for fns in b_.methods.values() for fn_ in fns for d_ in fn_.decorator_list if "validator" in ast.unparse(d_) or "serializer" in ast.unparse(d_))
+                    except Exception:  # noqa: BLE001
+                        thin = False
+                    if thin:
+                        inherited_ = class_decl(b_)["bases"]
+                        cur["bases"] = sorted((set(cur["bases"]) - {b_.name}) | set(inherited_))
             if cur["bases"] != r["bases"]:
                 gone, added = sorted(set(r["bases"]) - set(cur["bases"])), sorted(set(cur["bases"]) - set(r["bases"]))
                 ctx.bad("G.5", m.relpath, c.name, f"class {c.name}({', '.join(cur['bases'])})",
